@@ -108,6 +108,18 @@ CHECKS = {
         text="All files produced by the real generate() for the committed model: name pattern, hash, message class, label == strict MM validity, a True vector per message class, every True vector structured by the converter; plus every pair yielded by generate_for_type for every distinct type expression (reaches label decisions that never make it into a file).",
         note="Strict reading; property-less objects are open; responses may carry result and error; metamodel openness of enums.",
         ref="3/C17"),
+    "C07": dict(
+        engine="BISIM",
+        technique="exhaustive product-graph walk metamodel x parsed lib.rs (every struct, field, enum value, alias variant, method), both directions, on the plugin's output and the committed file",
+        text="Every structure (serde field-name set, mapped type, Option, proposed gate), every enumeration (serde discriminants as multiset; Serialize/Deserialize arms of integer enums), every or-alias (untagged enum variants), every method (message structs, method-enum rename), and every item of the file in the reverse direction.",
+        note="Own token-level parser for the emitted Rust subset (cross-checked by item counts and rustfmt acceptance); the crate cannot be compiled offline.",
+        ref="3/C07"),
+    "C08": dict(
+        engine="BISIM",
+        technique="exhaustive product-graph walk metamodel x parsed .cs files of the dotnet plugin's output (every record, data member, enum value, message class attribute)",
+        text="Every structure (data member set, mapped C# type, nullable, null-ignoring, JSON-constructor assignment), every enumeration, every method (LSPRequest method string and pairing, LSPResponse pairing, LSPMethods catalogue, Direction of request and notification classes, envelope member types).",
+        note="Own parser for the emitted C# subset; no .NET toolchain exists in the image, so the text is checked as the property says.",
+        ref="3/C08"),
 }
 
 PENDING_REASON = "check not built yet in this session (planned, see DESIGN.md section 3); not claimed until it exists"
@@ -162,7 +174,7 @@ NOT_APPLICABLE = {}
 ENGINES = [
     {"name": "MM", "path": "lspverif/mm.py", "serves_properties": [], "kind_free_text": "reference model of the LSP metamodel (oracle)"},
     {"name": "VSE", "path": "lspverif/vse.py", "serves_properties": ["C01", "C02", "C03", "C10", "C11", "C13", "C14", "C15"], "kind_free_text": "deviation-bounded exhaustive value-space explorer over the metamodel grammar"},
-    {"name": "BISIM", "path": "lspverif/img_py.py", "serves_properties": ["C04", "C05", "C09", "C17"], "kind_free_text": "product-graph exploration metamodel x generated artefact, simulation checked in both directions"},
+    {"name": "BISIM", "path": "lspverif/img_py.py", "serves_properties": ["C04", "C05", "C07", "C08", "C09", "C17"], "kind_free_text": "product-graph exploration metamodel x generated artefact, simulation checked in both directions"},
     {"name": "HIST", "path": "lspverif/hist.py", "serves_properties": ["C16", "C18"], "kind_free_text": "exhaustive enumeration of event histories on the real generator entry points with nondeterminism seams"},
     {"name": "SCHED", "path": "lspverif/sched.py", "serves_properties": ["C19"], "kind_free_text": "stateless schedule explorer for real Python threads (settrace + semaphore baton), preemption-bounded"},
     {"name": "GRID", "path": "lspverif/props/c12.py", "serves_properties": ["C12", "C20"], "kind_free_text": "exhaustive boundary-grid enumeration on the real classes and validators"},
